@@ -5,8 +5,10 @@ package main
 // RESP-side server where the two modes are compared).
 
 import (
+	"encoding/json"
 	"fmt"
 	"strings"
+	"unicode/utf8"
 
 	"verifharness/internal/srv"
 )
@@ -44,6 +46,7 @@ func special(b *bb) {
 			c.close()
 		}
 		if c, err := dialRaw(b.sb.Port); err == nil {
+			c.do("PING") // the error line is only written once the connection is known to speak RESP
 			c.write([]byte(junk))
 			v, err := c.readValue()
 			if err != nil {
@@ -89,18 +92,22 @@ func special(b *bb) {
 		for i := 0; i < 2; i++ {
 			args := []string{"<message>", chanName, payload}
 			v, err := cj.readValue()
-			d, ok := b.jsonBulk("pubsub-message-json", args, v, err)
-			rv, err := cr.readValue()
-			if err != nil {
-				b.fail("resp-invalid", "pub/sub message: "+err.Error(), args, nil, nil)
+			rv, err2 := cr.readValue()
+			if err != nil || err2 != nil || v.Kind != '$' {
+				b.fail("reply-missing", fmt.Sprintf("pub/sub message not delivered: %v %v %s", err, err2, v.String()), args, nil, nil)
 				continue
 			}
-			if ok {
-				js, _ := jstr(d.M["message"])
-				last := rv.Array[len(rv.Array)-1].Str
-				if rv.Kind != '*' || len(rv.Array) < 3 || fixUTF8(last) != js {
-					b.fail("modes-disagree-pubsub", fmt.Sprintf("published message differs: %q vs %s", js, rv.String()), args, d.Raw, rv.String())
-				}
+			// a pushed message is not a reply document: it must be one JSON value (the payload itself
+			// when it is JSON, else a JSON string)
+			if !json.Valid([]byte(v.Str)) || !utf8.ValidString(v.Str) {
+				b.fail("json-invalid", "pub/sub message in JSON mode is not a JSON value: "+trunc(v.Str, 200), args, v.Str, nil)
+				continue
+			}
+			b.r.Count("special|pubsub-message", true)
+			var js string
+			json.Unmarshal([]byte(v.Str), &js)
+			if rv.Kind != '*' || len(rv.Array) < 3 || fixUTF8(rv.Array[len(rv.Array)-1].Str) != js {
+				b.fail("modes-disagree-pubsub", fmt.Sprintf("published message differs: %q vs %s", js, rv.String()), args, v.Str, rv.String())
 			}
 		}
 		cj.close()
@@ -117,7 +124,14 @@ func special(b *bb) {
 				set := []string{"SET", "livekey", "i\"d\x01\xff", "FIELD", "f\"\xfe", "v\"\n", "FIELD", "n", "1.5", "POINT", "10", "10"}
 				p.do(set...)
 				v, err := cj.readValue()
-				b.jsonBulk("live-event-json", set, v, err)
+				// a pushed event is not a reply document (no "ok"): it must be one JSON value
+				if err != nil || v.Kind != '$' {
+					b.fail("reply-missing", fmt.Sprintf("live fence event not delivered: %v %s", err, v.String()), set, nil, nil)
+				} else if !json.Valid([]byte(v.Str)) || !utf8.ValidString(v.Str) {
+					b.fail("json-invalid", "live fence event in JSON mode is not a JSON value: "+trunc(v.Str, 300), set, v.Str, nil)
+				} else {
+					b.r.Count("special|live-event", true)
+				}
 				p.do("DROP", "livekey")
 				p.close()
 			}
